@@ -134,6 +134,9 @@ pub enum Who {
 #[derive(Clone, Debug, Serialize, Deserialize, PartialEq)]
 pub enum Op {
     Bond { by: Who, amt: Amt },
+    /// native config: the same bond paid as two coins of the staking denom in one funds list (refused on the
+    /// pinned tree; if it is ever accepted, the stake grows by what was sent); cw20 config: a plain bond
+    BondSplit { by: Who, amt: Amt },
     Unbond { by: Who, amt: Amt },
     Claim { by: Who },
     Advance { blocks: u16, secs: u32, #[serde(default)] nanos: u32 },
@@ -284,6 +287,7 @@ fn op_group() -> BoxedStrategy<Vec<Op>> {
     prop_oneof![
         1 => pile,
         28 => one((who(Who::WithFunds), bond_amt()).prop_map(|(by, amt)| Op::Bond { by, amt }).boxed()),
+        1 => one((who(Who::WithFunds), bond_amt()).prop_map(|(by, amt)| Op::BondSplit { by, amt }).boxed()),
         20 => one((who(Who::WithStake), unbond_amt()).prop_map(|(by, amt)| Op::Unbond { by, amt }).boxed()),
         16 => one(who(Who::WithClaims).prop_map(|by| Op::Claim { by }).boxed()),
         10 => one((0u16..4, 0u32..40, prop_oneof![3 => Just(0u32), 1 => 0u32..1_000_000_000]).prop_map(|(blocks, secs, nanos)| Op::Advance { blocks, secs, nanos }).boxed()),
@@ -727,6 +731,28 @@ enum Kind {
 }
 
 /// State invariants, evaluated after instantiation and after every step.
+/// What the contract reports now about the start of the block after each recently closed block is what it
+/// reported when that block ended (whatever the members did since, e.g. leaving altogether).
+fn check_closed_blocks(w: &World, closed: &[(u64, Vec<Option<u64>>)], at: &str) -> Result<(), Violation> {
+    let now = w.app.block_info().height;
+    for (bh, members) in closed {
+        let h = bh + 1;
+        if h > now {
+            continue;
+        }
+        for (i, want) in members.iter().enumerate() {
+            let got = w
+                .q::<MemberResponse>(&w.stake, &QueryMsg::Member { addr: w.watched[i].to_string(), at_height: Some(h) })
+                .map_err(|e| v("query-failed", format!("{at}: Member at height {h}: {e}")))?
+                .weight;
+            if got != *want {
+                return Err(v("member-history-rewritten", format!("{at}: {} was reported with weight {:?} when block {bh} ended; asked about height {h} now, the contract reports {:?}", w.name(i), want, got)));
+            }
+        }
+    }
+    Ok(())
+}
+
 fn check_state(w: &World, o: &Obs, donated: bool, at: &str, ctx: &mut CaseCtx) -> Result<(), Violation> {
     // ---- backing
     let mut books = Uint256::zero();
@@ -804,6 +830,9 @@ pub fn run_case(prop: &str, case: &Case, ctx: &mut CaseCtx) -> Result<(), Violat
     }
     let mut donated = w.init_donation;
     check_state(&w, &pre, donated, "after instantiate", ctx)?;
+    // membership as it stood at the end of the last few blocks that were closed: "reported as a member" also
+    // covers what the contract reports about those blocks later on
+    let mut closed: Vec<(u64, Vec<Option<u64>>)> = vec![];
 
     // ledger of unreleased claims: per user, release key -> (sum, earliest permitted payout)
     let mut ledger: Vec<BTreeMap<ExpKey, (Uint256, Earliest)>> = vec![BTreeMap::new(); n];
@@ -854,6 +883,12 @@ pub fn run_case(prop: &str, case: &Case, ctx: &mut CaseCtx) -> Result<(), Violat
         };
         if matches!(op, Op::Advance { .. } | Op::AdvanceToRelease { .. }) {
             if let Some((blocks, nanos)) = adv {
+                if blocks > 0 {
+                    closed.push((block.height, pre.member[..n].to_vec()));
+                    if closed.len() > 3 {
+                        closed.remove(0);
+                    }
+                }
                 w.app.update_block(|b| {
                     b.height = b.height.saturating_add(blocks);
                     b.time = cosmwasm_std::Timestamp::from_nanos(b.time.nanos().saturating_add(nanos));
@@ -862,13 +897,15 @@ pub fn run_case(prop: &str, case: &Case, ctx: &mut CaseCtx) -> Result<(), Violat
                 if post != pre {
                     return Err(v("advance-changed-state", format!("step {step_no}: the passage of time alone changed queried state")));
                 }
+                check_closed_blocks(&w, &closed, &format!("step {step_no} (after advancing)"))?;
             }
             continue;
         }
 
         // ------------------------------------------------ a call
         let (kind, u, amount, res): (Kind, usize, u128, Result<(), String>) = match op {
-            Op::Bond { by, amt } => {
+            Op::Bond { by, amt } | Op::BondSplit { by, amt } => {
+                let split = matches!(op, Op::BondSplit { .. });
                 let u = resolve_who(by, &pre, &block);
                 let mut a = resolve_amt(amt, &w, &pre, u, true);
                 if no_wrap() && w.tpw > 0 {
@@ -885,7 +922,14 @@ pub fn run_case(prop: &str, case: &Case, ctx: &mut CaseCtx) -> Result<(), Violat
                     }
                     None => {
                         // a zero coin cannot be sent on a chain: a zero bond is a Bond without funds
-                        let funds = if a == 0 { vec![] } else { vec![coin(a, DENOM)] };
+                        let funds = if a == 0 {
+                            vec![]
+                        } else if split && a >= 2 {
+                            ctx.count("bond_paid_in_two_coins");
+                            vec![coin(a / 2, DENOM), coin(a - a / 2, DENOM)]
+                        } else {
+                            vec![coin(a, DENOM)]
+                        };
                         w.exec(&user, &stake, &ExecuteMsg::Bond {}, &funds)
                     }
                 };
@@ -1119,6 +1163,7 @@ pub fn run_case(prop: &str, case: &Case, ctx: &mut CaseCtx) -> Result<(), Violat
             bonded_once = true;
         }
         check_state(&w, &post, donated, &at, ctx)?;
+        check_closed_blocks(&w, &closed, &at)?;
         pre = post;
     }
 
@@ -1309,7 +1354,10 @@ pub fn decode_case(_prop: &str, u: &mut arbitrary::Unstructured) -> Case {
             }
         }
         match sel {
-            0..=8 => ops.push(Op::Bond { by: d_who(u, Who::WithFunds), amt: d_bond_amt(u) }),
+            0..=8 => {
+                let (by, amt) = (d_who(u, Who::WithFunds), d_bond_amt(u));
+                ops.push(if arb_bool(u, 1, 28) { Op::BondSplit { by, amt } } else { Op::Bond { by, amt } })
+            }
             9..=14 => ops.push(Op::Unbond { by: d_who(u, Who::WithStake), amt: d_unbond_amt(u) }),
             15..=19 => ops.push(Op::Claim { by: d_who(u, Who::WithClaims) }),
             20..=22 => ops.push(Op::Advance { blocks: arb_below(u, 4) as u16, secs: arb_below(u, 40) as u32, nanos: if arb_bool(u, 1, 4) { u.int_in_range(0u32..=999_999_999).unwrap_or(0) } else { 0 } }),
